@@ -765,6 +765,28 @@ CLAUSE_REGIMES = {
 }
 
 
+def possible_regimes(case: dict) -> list[str]:
+    """The known regimes the INPUT does not rule out, whatever branches a run takes (necessary conditions read off the
+    data): `adjust` needs a group with a positive minimum power on the request's side, `split_infeasible` a group with
+    several inverters, `exp0` exponent 0 and a group without headroom, `zero_ratio_min` a group without headroom and with
+    a positive minimum power."""
+    supply = side_is_supply(case)
+    try:
+        sides = [group_side(g, supply) for g in case["groups"]]
+    except (ZeroDivisionError, KeyError, ValueError):
+        return list(FLAG_ORDER)
+    out = []
+    if any(s["min_p"] > 0 for s in sides):
+        out.append("adjust")
+    if any(len(g["invs"]) > 1 for g in case["groups"]):
+        out.append("split_infeasible")
+    if int(case["exp"]) == 0 and any(s["avail"] == 0 for s in sides):
+        out.append("exp0")
+    if any(s["avail"] == 0 and s["min_p"] > 0 for s in sides):
+        out.append("zero_ratio_min")
+    return out
+
+
 def regime_of(clause: str, flags: list[str]) -> str | None:
     for r in CLAUSE_REGIMES[clause]:
         if r in flags:
@@ -1248,10 +1270,13 @@ def process(ctx: Any, prop: str, case: dict, mgr_probe: bool, domain_probe: bool
         # the float outputs are what the hardware receives: same clauses, same tolerance — also where the float run takes
         # another branch than the exact one (`float-divergent`): a violation that exists in IEEE doubles only is a violation
         flr = {"dist": {k: rat(v) for k, v in fl["dist"].items()}, "rem": rat(fl["rem"])}
+        divergent = gap > Fraction(1, 10**6)
         for clause, observed in oracle(case, flr, prop):
             if not any(v["case"] is case and v["clause"] == f"{prop}.{clause}" for v in ctx.violations[-8:]):
-                ctx.violation(f"{prop}.{clause}", case, {"impl_float": flr, "float_only": gap > Fraction(1, 10**6), **observed},
-                              regime=regime_of(clause, flags))
+                # a float run that took other branches may sit in a known regime the exact run is not in: it is attributed
+                # to a known regime of the clause only if the INPUT makes that regime possible at all
+                reg = regime_of(clause, possible_regimes(case)) if divergent else regime_of(clause, flags)
+                ctx.violation(f"{prop}.{clause}", case, {"impl_float": flr, "float_only": divergent, **observed}, regime=reg)
     # the domain predicates against the REAL PowerBoundsCalculator / _check_request (floats)
     if domain_probe and cons:
         rp = real_domain_probe(case)
